@@ -1,6 +1,7 @@
 # C05 Only a valid, unexpired, untampered connect token from its own address connects
 import re
 from sa.rules import *
+import rules.wave3 as W3
 import rules.shared as shared
 from rules.netcode_common import *
 
@@ -87,8 +88,9 @@ def rules(t):
                 if method_of(nm) in ("contains", "eq", "ne") and ("PartialEq" in nm or "contains" in nm):
                     involved = "public_addresses" in fmt(t.arg(c, 0)) or g is not h
                     if not involved: continue
-                    if "std::net::SocketAddr" in sub or "SocketAddr as" in nm or "SocketAddr::eq" in nm: cmp_sock += 1
-                    elif "IpAddr" in sub or "IpAddr" in nm or "u16" in sub: cmp_other += 1
+                    whole = re.search(r"SocketAddr(?![A-Za-z0-9])", sub + " " + nm) is not None
+                    if whole: cmp_sock += 1
+                    else: cmp_other += 1        # any equality on a part of an address (IpAddr, Ipv4Addr, Ipv6Addr, SocketAddrV6 fields, port) decides membership on less than ip AND port
         if cmp_sock == 0 or cmp_other > 0: r.bad("host-list-eq", s0, "host-list membership is not decided by equality of whole SocketAddr values (ip and port): a token issued for another port / instance on the same IP is accepted")
     out.append(r)
 
@@ -146,6 +148,22 @@ def rules(t):
                 cl = [g for g in t.fns() if "{closure" in g.path and t.closure_creator(g) is not None and t.closure_creator(g).fn is p and fmt(t.arg(c, 1)).startswith(short(g.path)[:10])]
                 if p.dominates(c.bb, s.bb) and any("client_id" in fmt(g.origin_of_local(0)) or any("client_id" in fmt(br2["raw"]) for br2 in t.branches(g) if br2["kind"] == "bool") for g in t.fns() if g.path.startswith(p.path + "::{closure")): id_tests.append(c)
         if not id_tests: r.bad("no-id-test", s, "slot fill not dominated by an already-connected test"); continue
+        if method_of(callee_name(id_tests[0].node)) not in ("any", "position", "find"):
+            # the fill must lie on an edge on which the lookup is KNOWN to have found nothing: `.is_some()` false / `.is_none()` true / matched on None /
+            # `is_client_connected` false. A weakened test (`is_some_and(|c| ..)`, `map_or`, `filter`) lets a second session for a present id through.
+            absent_e = []
+            is_lookup = lambda o_: isinstance(strip(o_), tuple) and strip(o_)[0] == "call" and re.search(r"find_client(_mut|_slot)?_by_id$|NetcodeServer::is_client_connected$", strip(o_)[1])
+            for br in t.branches(p):
+                if br["kind"] == "bool" and br["cond"][0] == "call":
+                    m_ = method_of(br["cond"][1]); a_ = br["cond"][2]
+                    if m_ == "is_some" and a_ and is_lookup(a_[0]): absent_e.append(br["f_edge"])
+                    elif m_ == "is_none" and a_ and is_lookup(a_[0]): absent_e.append(br["t_edge"])
+                    elif m_ == "is_client_connected": absent_e.append(br["f_edge"])
+                elif br["kind"] == "discr" and is_lookup(br["on"]):
+                    absent_e += [(br["bb"], tgt) for v_, tgt in br["targets"].items() if v_ == 0]
+                    if 0 not in br["targets"]: absent_e.append((br["bb"], br["otherwise"]))
+            if not any(t.edge_dominates(p, e_, s.bb) for e_ in absent_e):
+                r.bad("id-test-weakened", s, "the slot is filled on a path on which the id lookup is not known to have failed (the already-connected test is combined with another condition): a second session can be admitted for an id that is still in the table")
         tested = t.arg(id_tests[0], 1) if len(id_tests[0].node["args"]) > 1 else ("unknown",)
         if method_of(callee_name(id_tests[0].node)) in ("any", "position", "find"):
             cs = [t.closure_creator(g) for g in t.fns() if g.path.startswith(p.path + "::{closure") and t.closure_creator(g) is not None]
@@ -219,4 +237,5 @@ def rules(t):
     for c in adr: r.site(c, "address decision")
     if not adr: r.bad("addr-missing", None, "a MAC match is not decided by comparing the stored and the presenting address")
     out.append(r)
+    out.append(W3.session_immutable(t, "C05.h"))
     return out
